@@ -106,9 +106,13 @@ def run(chk):
             m2, prior2 = gt.build_machine(cfg2)
             m2.fit(b1)
             moved = not np.allclose(m2.means[1:], prior2.means[1:])
+            # which components really receive no evidence from the second batch, under the machine as it stands after the first one
+            # (with variance adaptation the adapted variances decide, not the prior's)
+            starved2 = np.asarray(m2.acc_stats(b2).n) < eps
+            starved2[0] = False
             m2.fit(b2)
-            chk.count(1, key=("evidence-then-none", sw))
-            if moved and not np.allclose(np.asarray(m2.means)[1:], np.asarray(prior2.means)[1:], rtol=1e-12, atol=0):
+            chk.count(1, key=("evidence-then-none", sw, bool(starved2.any())))
+            if moved and starved2.any() and not np.allclose(np.asarray(m2.means)[starved2], np.asarray(prior2.means)[starved2], rtol=1e-12, atol=0):
                 chk.fail("a component that receives no evidence (after having been adapted on an earlier batch) does not keep the prior's mean",
                          dict(ctx, batch1=hexlist(b1), batch2=hexlist(b2), prior_mu=hexlist(pmu)))
         # ---- the settings in force are the machine's CURRENT ones: a machine configured differently at construction (ML trainer, other
